@@ -291,3 +291,24 @@ def reachable_nodes(node, flags, in_loop=False):
 def ctor_names(node, adt_suffix):
     """Variant names of constructors of the given ADT appearing under node, in order."""
     return [n["v"] for n in walk(node) if n.get("k") == "adt" and n["adt"].endswith(adt_suffix)]
+
+
+def user_block(thir):
+    """The function body as written by the user: strips the wrapper blocks `#[tracing::instrument]` adds."""
+    n = thir
+    for _ in range(6):
+        if not isinstance(n, dict) or n.get("k") != "block":
+            break
+        stmts = n.get("stmts", [])
+        is_instr = any(st.get("k") == "let" and str(st.get("pat", {}).get("n", "")).startswith("__tracing_attr") for st in stmts)
+        def noise(st):
+            if st.get("k") == "block" and not st.get("stmts") and st.get("expr") is None:
+                return True
+            # `if false { let __tracing_attr_fake_return = loop {}; return .. }`
+            return st.get("k") == "if" and peel(st["cond"]).get("k") == "lit" and "false" in peel(st["cond"])["v"]
+        trivial = all(noise(st) for st in stmts)
+        if n.get("expr") is not None and (is_instr or (stmts and trivial)):
+            n = n["expr"]
+            continue
+        break
+    return n
